@@ -14,7 +14,8 @@ Record cc := { c_sent : N; c_acked : N; c_lost : N; c_disc : N }.
 Record pathst := { rt : rtt; fts : option N; ccs : cc }.
 
 Record mgr := {
-  m_space : N; m_conf : bool;
+  m_space : N; m_client : bool; pv : bool;   (* pv: the active path is peer validated *)
+  m_conf : bool;
   sentp : list pkt;              (* sent_packets, ascending packet numbers *)
   largest : option N;            (* largest_acked_packet *)
   loss_timer : option N;
@@ -28,14 +29,14 @@ Record mgr := {
 }.
 
 Definition set_path (m : mgr) (i : N) (p : pathst) : mgr :=
-  {| m_space := m_space m; m_conf := m_conf m; sentp := sentp m; largest := largest m;
+  {| m_space := m_space m; m_client := m_client m; pv := pv m; m_conf := m_conf m; sentp := sentp m; largest := largest m;
      loss_timer := loss_timer m; ptos := ptos m; last_ae := last_ae m; pend := pend m;
      pa := if i =? 0 then p else pa m; pb := if i =? 0 then pb m else p;
      backoff := backoff m; m_now := m_now m; lastpn := lastpn m; mp := mp m |}.
 Definition get_path (m : mgr) (i : N) : pathst := if i =? 0 then pa m else pb m.
 
 Definition upd_core (m : mgr) (sp : list pkt) (lg : option N) (lt : option N) (pt : pto) : mgr :=
-  {| m_space := m_space m; m_conf := m_conf m; sentp := sp; largest := lg;
+  {| m_space := m_space m; m_client := m_client m; pv := pv m; m_conf := m_conf m; sentp := sp; largest := lg;
      loss_timer := lt; ptos := pt; last_ae := last_ae m; pend := pend m;
      pa := pa m; pb := pb m; backoff := backoff m; m_now := m_now m; lastpn := lastpn m; mp := mp m |}.
 
@@ -54,18 +55,18 @@ Definition update_pto_timer (m : mgr) (now : N) : mgr :=
     else if (m_space m =? 2) && negb (m_conf m) then cancel (ptos m)
     else
       let ae_in_flight := existsb p_ae (sentp m) in
-      if negb ae_in_flight then cancel (ptos m)      (* the peer is validated *)
+      if negb ae_in_flight && pv m then cancel (ptos m)
       else
         let base := match last_ae m with Some t => t | None => now end in
         update (ptos m) base (pto_period (rt (pa m)) (backoff m) (m_space m)) in
-  {| m_space := m_space m; m_conf := m_conf m; sentp := sentp m; largest := largest m;
+  {| m_space := m_space m; m_client := m_client m; pv := pv m; m_conf := m_conf m; sentp := sentp m; largest := largest m;
      loss_timer := loss_timer m; ptos := pt; last_ae := last_ae m; pend := false;
      pa := pa m; pb := pb m; backoff := backoff m; m_now := m_now m; lastpn := lastpn m; mp := mp m |}.
 
 (* ---- on_packet_sent ---- *)
 Definition on_packet_sent (m : mgr) (pn bytes : N) (ae : bool) (time path : N) : mgr :=
   let m1 := cc_path m path bytes 0 0 0 in
-  {| m_space := m_space m1; m_conf := m_conf m1;
+  {| m_space := m_space m1; m_client := m_client m1; pv := pv m1; m_conf := m_conf m1;
      sentp := sentp m1 ++ [{| p_pn := pn; p_bytes := bytes; p_time := time; p_ae := ae; p_path := path |}];
      largest := largest m1; loss_timer := loss_timer m1; ptos := ptos m1;
      last_ae := if ae then Some time else last_ae m1; pend := if ae then true else pend m1;
@@ -74,7 +75,7 @@ Definition on_packet_sent (m : mgr) (pn bytes : N) (ae : bool) (time path : N) :
 
 Definition burst_complete (m : mgr) (now : N) : mgr :=
   let m1 := if pend m then update_pto_timer m now else m in
-  {| m_space := m_space m1; m_conf := m_conf m1; sentp := sentp m1; largest := largest m1;
+  {| m_space := m_space m1; m_client := m_client m1; pv := pv m1; m_conf := m_conf m1; sentp := sentp m1; largest := largest m1;
      loss_timer := loss_timer m1; ptos := ptos m1; last_ae := last_ae m1; pend := pend m1;
      pa := pa m1; pb := pb m1; backoff := backoff m1; m_now := m_now m1; lastpn := lastpn m1; mp := false |}.
 
@@ -200,9 +201,9 @@ Definition on_ack_frame (m : mgr) (now : N) (rs : list (N * N)) (lgf ack_delay r
       let m4 := cc_path m3 other 0 (sum_bytes_on acked other) 0 0 in
       let reset := existsb (fun p => p_path p =? 0) acked in
       let m5 :=
-        {| m_space := m_space m4; m_conf := m_conf m4; sentp := sentp m4; largest := largest m4;
+        {| m_space := m_space m4; m_client := m_client m4; pv := pv m4; m_conf := m_conf m4; sentp := sentp m4; largest := largest m4;
            loss_timer := loss_timer m4; ptos := ptos m4; last_ae := last_ae m4; pend := pend m4;
-           pa := pa m4; pb := pb m4; backoff := if reset then initial_pto_backoff else backoff m4;
+           pa := pa m4; pb := pb m4; backoff := if reset && pv m4 then initial_pto_backoff else backoff m4;
            m_now := m_now m4; lastpn := lastpn m4; mp := mp m4 |} in
       let m6 := update_pto_timer m5 now in
       let m7 := cc_path m6 rxpath 0 (sum_bytes_on acked rxpath) 0 0 in
@@ -211,7 +212,7 @@ Definition on_ack_frame (m : mgr) (now : N) (rs : list (N * N)) (lgf ack_delay r
 
 (* ---- on_timeout ---- *)
 Definition set_backoff (m : mgr) (b : N) (pt : pto) : mgr :=
-  {| m_space := m_space m; m_conf := m_conf m; sentp := sentp m; largest := largest m;
+  {| m_space := m_space m; m_client := m_client m; pv := pv m; m_conf := m_conf m; sentp := sentp m; largest := largest m;
      loss_timer := loss_timer m; ptos := pt; last_ae := last_ae m; pend := pend m;
      pa := pa m; pb := pb m; backoff := b; m_now := m_now m; lastpn := lastpn m; mp := mp m |}.
 
@@ -232,9 +233,25 @@ Definition on_timeout (m : mgr) (now maxb : N) : mgr * list N :=
 Definition discard (m : mgr) : mgr :=
   cc_path m 0 0 0 0 (fold_right (fun p acc => p_bytes p + acc) 0 (sentp m)).
 
+(* Initial/Handshake spaces and the client use one path only (the driver enforces it) *)
+Definition single (m : mgr) : bool := m_client m || negb (m_space m =? 2).
+
+(* on_retry_packet (client): every sent packet leaves flight through on_packet_discarded on path 0 and
+   the manager is replaced by a new one; paths (RTT, backoff) are untouched *)
+Definition retry (m : mgr) : mgr :=
+  let m1 := cc_path m 0 0 0 0 (fold_right (fun p acc => p_bytes p + acc) 0 (sentp m)) in
+  {| m_space := m_space m1; m_client := m_client m1; pv := pv m1; m_conf := m_conf m1; sentp := []; largest := None;
+     loss_timer := None; ptos := pto_init; last_ae := None; pend := false;
+     pa := pa m1; pb := pb m1; backoff := backoff m1; m_now := m_now m1; lastpn := lastpn m1; mp := mp m1 |}.
+
+Definition peer_validated (m : mgr) : mgr :=
+  {| m_space := m_space m; m_client := m_client m; pv := true; m_conf := m_conf m; sentp := sentp m; largest := largest m;
+     loss_timer := loss_timer m; ptos := ptos m; last_ae := last_ae m; pend := pend m;
+     pa := pa m; pb := pb m; backoff := backoff m; m_now := m_now m; lastpn := lastpn m; mp := mp m |}.
+
 (* ---- harness protocol (see verif_hooks/recovery.rs) ---- *)
 Definition set_now (m : mgr) (now : N) : mgr :=
-  {| m_space := m_space m; m_conf := m_conf m; sentp := sentp m; largest := largest m;
+  {| m_space := m_space m; m_client := m_client m; pv := pv m; m_conf := m_conf m; sentp := sentp m; largest := largest m;
      loss_timer := loss_timer m; ptos := ptos m; last_ae := last_ae m; pend := pend m;
      pa := pa m; pb := pb m; backoff := backoff m; m_now := now; lastpn := lastpn m; mp := mp m |}.
 
@@ -243,10 +260,10 @@ Definition mk_ranges (lgf len1 gap2 len2 : N) : list (N * N) :=
   (s1, lgf) :: (if (0 <? len2) && (2 + gap2 <=? s1)
                 then let e2 := s1 - 2 - gap2 in [(e2 - (len2 - 1), e2)] else []).
 
-Definition minit (space : N) (conf : bool) (mad_ms start : N) : mgr :=
+Definition minit (space : N) (conf client : bool) (mad_ms start : N) : mgr :=
   let r := on_max_ack_delay (rtt_new 0 default_initial_rtt_ns) mad_ms in
   let p := {| rt := r; fts := None; ccs := {| c_sent := 0; c_acked := 0; c_lost := 0; c_disc := 0 |} |} in
-  {| m_space := if space =? 0 then 0 else if space =? 1 then 1 else 2; m_conf := conf; sentp := []; largest := None; loss_timer := None;
+  {| m_space := if space =? 0 then 0 else if space =? 1 then 1 else 2; m_client := client; pv := negb client; m_conf := conf; sentp := []; largest := None; loss_timer := None;
      ptos := pto_init; last_ae := None; pend := false; pa := p; pb := p;
      backoff := initial_pto_backoff; m_now := N.max start 1; lastpn := None; mp := false |}.
 
@@ -255,7 +272,7 @@ Definition mstep (m : mgr) (c a b d e f g : Z) : mgr * Z * list N * list (N * N)
   if (c =? 1)%Z then
     let now := m_now m + zN e in
     let pn := match lastpn m with None => zN a - 1 | Some l => l + N.max (zN a) 1 end in
-    (on_packet_sent (set_now m now) pn (zN b) (negb (d =? 0)%Z) now (if (f =? 0)%Z then 0 else 1), 0%Z, [], [], false)
+    (on_packet_sent (set_now m now) pn (zN b) (negb (d =? 0)%Z) now (if single m || (f =? 0)%Z then 0 else 1), 0%Z, [], [], false)
   else if (c =? 2)%Z then
     let now := m_now m + zN a in
     (burst_complete (set_now m now) now, 0%Z, [], [], false)
@@ -266,7 +283,7 @@ Definition mstep (m : mgr) (c a b d e f g : Z) : mgr * Z * list N * list (N * N)
     let ok := match lastpn m with Some l => zN b <=? l | None => false end in
     if ok then
       let '(m1, lost, hulls) := on_ack_frame m0 now (mk_ranges (zN b) (zN d) (zN e) (zN f)) (zN b) (zN g * 1000)
-                                 (if (c =? 4)%Z then 1 else 0) in
+                                 (if (c =? 4)%Z && negb (single m) then 1 else 0) in
       (m1, 0%Z, lost, hulls, false)
     else (m0, 3%Z, [], [], false)
   else if (c =? 5)%Z then
@@ -277,7 +294,13 @@ Definition mstep (m : mgr) (c a b d e f g : Z) : mgr * Z * list N * list (N * N)
     | Some maxb => let '(m2, lost) := on_timeout m1 now maxb in (m2, 0%Z, lost, [], false)
     | None => (m1, 2%Z, [], [], false)
     end
-  else if (c =? 6)%Z then (discard (if mp m then burst_complete m (m_now m) else m), 0%Z, [], [], true)
+  else if (c =? 6)%Z then
+    if m_space m =? 2 then (m, 0%Z, [], [], false)
+    else (discard (if mp m then burst_complete m (m_now m) else m), 0%Z, [], [], true)
+  else if (c =? 7)%Z then
+    if m_client m then (retry (if mp m then burst_complete m (m_now m) else m), 0%Z, [], [], false)
+    else (m, 0%Z, [], [], false)
+  else if (c =? 8)%Z then (peer_validated m, 0%Z, [], [], false)
   else (m, 0%Z, [], [], false).
 
 Definition hull_z (l : list (N * N)) : list Z := flat_map (fun h => [Nz (fst h); Nz (snd h)]) l.
@@ -314,7 +337,7 @@ Fixpoint run_ops (m : mgr) (l : list Z) : list Z :=
 
 Definition run (case : list Z) : list Z :=
   match case with
-  | sp :: cf :: mad :: st :: ops => run_ops (minit (zN sp) (negb (cf =? 0)%Z) (zN mad) (zN st)) ops
+  | sp :: cf :: mad :: st :: ops => run_ops (minit (zN sp) (N.odd (zN cf)) (N.odd (zN cf / 2)) (zN mad) (zN st)) ops
   | _ => []
   end.
 
@@ -332,7 +355,9 @@ Definition run (case : list Z) : list Z :=
    - per path: bytes sent / acknowledged / lost / discarded move by exactly the sizes of the packets
      sent / newly acknowledged / reported lost / discarded, hence
      bytes in flight = sent - acked - lost - discarded = total size of the unresolved packets;
-   - the PTO backoff only doubles on a timeout, only resets to 1 on an ACK, and is never 0. *)
+   - the PTO backoff only doubles on a timeout, only resets to 1 on an ACK, and is never 0;
+   - a space discard (Initial/Handshake) and a Retry (client) take exactly the unresolved bytes out of
+     flight and resolve every packet. *)
 Record jm := {
   j_un : list pkt;            (* unresolved packets, ascending *)
   j_lg : option N;
@@ -416,7 +441,7 @@ Fixpoint hulls_eqb (a b : list (N * N)) : bool :=
 
 Definition all_nonneg (l : list Z) : bool := forallb (fun z => (0 <=? z)%Z) l.
 
-Definition jstep_m (tol : bool) (space : N) (j : jm) (c a b d e f g : Z) (o : list Z) : option (jm * list Z * bool) :=
+Definition jstep_m (tol : bool) (app client : bool) (j : jm) (c a b d e f g : Z) (o : list Z) : option (jm * list Z * bool) :=
   match parse_obs o with
   | None => None
   | Some (code, lost, hulls, rest, remaining) =>
@@ -428,7 +453,7 @@ Definition jstep_m (tol : bool) (space : N) (j : jm) (c a b d e f g : Z) (o : li
     if (c =? 1)%Z then
       let now := j_now j + zN e in
       let pn := match j_last j with None => zN a - 1 | Some l => l + N.max (zN a) 1 end in
-      let path := if (f =? 0)%Z then 0 else 1 in
+      let path := if (client || negb app) || (f =? 0)%Z then 0 else 1 in
       let p := {| p_pn := pn; p_bytes := zN b; p_time := now; p_ae := negb (d =? 0)%Z; p_path := path |} in
       let un := j_un j ++ [p] in
       let e0 := cc_add (j_cc0 j) (if path =? 0 then zN b else 0) 0 0 0 in
@@ -472,11 +497,18 @@ Definition jstep_m (tol : bool) (space : N) (j : jm) (c a b d e f g : Z) (o : li
           then Some ({| j_un := un2; j_lg := j_lg j; j_now := now; j_last := j_last j; j_cc0 := e0; j_cc1 := e1; j_bo := bo |}, remaining, false)
           else None
       end
-    else if (c =? 6)%Z then
+    else if (c =? 6)%Z && negb app then
       let e0 := cc_add (j_cc0 j) 0 0 0 (fold_right (fun p acc => p_bytes p + acc) 0 (j_un j)) in
       if (code =? 0)%Z && match lost with [] => true | _ => false end && match hulls with [] => true | _ => false end
          && cc_eqb cc0 e0 && cc_eqb cc1 (j_cc1 j) && bif_ok (filter (fun p => negb (p_path p =? 0)) (j_un j)) && (bo =? j_bo j)
       then Some ({| j_un := []; j_lg := j_lg j; j_now := j_now j; j_last := j_last j; j_cc0 := e0; j_cc1 := j_cc1 j; j_bo := bo |}, remaining, true)
+      else None
+    else if (c =? 7)%Z && client then
+      (* Retry: every unresolved packet is discarded with the manager's state *)
+      let e0 := cc_add (j_cc0 j) 0 0 0 (fold_right (fun p acc => p_bytes p + acc) 0 (j_un j)) in
+      if (code =? 0)%Z && match lost with [] => true | _ => false end && match hulls with [] => true | _ => false end
+         && cc_eqb cc0 e0 && cc_eqb cc1 (j_cc1 j) && bif_ok [] && (bo =? j_bo j)
+      then Some ({| j_un := []; j_lg := None; j_now := j_now j; j_last := j_last j; j_cc0 := e0; j_cc1 := j_cc1 j; j_bo := bo |}, remaining, false)
       else None
     else
       let now := if (c =? 2)%Z then j_now j + zN a else j_now j in
@@ -486,12 +518,12 @@ Definition jstep_m (tol : bool) (space : N) (j : jm) (c a b d e f g : Z) (o : li
       else None
   end.
 
-Fixpoint judge_ops (tol : bool) (space : N) (j : jm) (l out : list Z) : bool :=
+Fixpoint judge_ops (tol : bool) (app client : bool) (j : jm) (l out : list Z) : bool :=
   match l with
   | c :: a :: b :: d :: e :: f :: g :: _ :: t =>
-      match jstep_m tol space j c a b d e f g out with
+      match jstep_m tol app client j c a b d e f g out with
       | Some (j', out', stop) =>
-          if stop then match out' with [] => true | _ => false end else judge_ops tol space j' t out'
+          if stop then match out' with [] => true | _ => false end else judge_ops tol app client j' t out'
       | None => false
       end
   | _ => match out with [] => true | _ => false end
@@ -499,7 +531,8 @@ Fixpoint judge_ops (tol : bool) (space : N) (j : jm) (l out : list Z) : bool :=
 
 Definition judge_g (tol : bool) (case out : list Z) : bool :=
   match case with
-  | sp :: cf :: mad :: st :: ops => judge_ops tol (zN sp) (jinit (zN st)) ops out
+  | sp :: cf :: mad :: st :: ops =>
+      judge_ops tol (negb ((zN sp =? 0) || (zN sp =? 1))) (N.odd (zN cf / 2)) (jinit (zN st)) ops out
   | _ => match out with [] => true | _ => false end
   end.
 
